@@ -244,6 +244,8 @@ let parse_rscript t : rev0 list =
     | "p" -> RPending | "e" -> REof | "x" -> RErr
     | "i" -> RErr     (* an interrupted read: tokio's read_exact reports it as the error it is; only used where one decode call is observed *)
     | s when String.length s >= 2 && String.sub s 0 2 = "t:" -> RPending
+    | s when String.length s >= 2 && String.sub s 0 2 = "r:" -> RPending     (* a pause in wall-clock time *)
+    | s when String.length s >= 2 && String.sub s 0 2 = "r:" -> RPending     (* a pause in wall-clock time *)
     | s when String.length s >= 2 && String.sub s 0 2 = "w:" -> RPending     (* the peer waits for output: in the model the answer is on the stream before the next read *)
     | s when String.length s >= 2 && String.sub s 0 2 = "c:" -> RChunk (bytes_of_tok ("x" ^ String.sub s 2 (String.length s - 2)))
     | s -> raise (Parse ("rev " ^ s))) n
